@@ -11,7 +11,7 @@ Returns None where the outcome also depends on numbers (scale_parameter on an as
 """
 from __future__ import annotations
 
-from .c03ops import PLURAL, singular_ops
+from .c03ops import PLURAL, bare_parts, default_sig, singular_ops, val_with_sig, with_sig
 
 ADD = {"add_parameter": "pars", "add_variable": "vars", "add_derived": "derived", "add_reaction": "rxns",
        "add_readout": "readouts", "add_data": "data"}
@@ -121,7 +121,22 @@ class Names:
         raise ValueError(op)
 
 
+def effective(op):
+    """the keyword form of add_surrogate says the same as the plain form with the overridden surrogate"""
+    if op[0] == "add_surrogate" and len(op) > 3:
+        d = dict(op[2])
+        if op[3] is not None:
+            d["args"] = op[3]
+        if op[4] is not None:
+            d["outs"] = op[4]
+        if op[5] is not None:
+            d["st"] = op[5]
+        return [op[0], op[1], d]
+    return op
+
+
 def expected_outcome(content, op):
+    op = effective(op)
     ns = Names(content)
     if op[0] in PLURAL:
         unknown = False
@@ -178,7 +193,13 @@ def _scaled(c, n, factor):
 
 def _apply1(c, op):
     k, n = op[0], op[1]
-    if k in ADD:
+    if k in ("add_parameter", "add_variable"):
+        c[ADD[k]].append([n, val_with_sig(op[2])])
+    elif k in ("add_derived", "add_readout"):
+        c[ADD[k]].append([n, with_sig(op[2])])
+    elif k == "add_reaction":
+        c["rxns"].append([n, with_sig(op[2])])
+    elif k in ADD:
         c[ADD[k]].append([n, op[2]])
     elif k == "add_surrogate":
         c["surs"].append([n, op[2]])
@@ -192,7 +213,7 @@ def _apply1(c, op):
         _drop(c, "surs", n)
     elif k in ("update_parameter", "update_variable"):
         if op[2] is not None:
-            _put(c[UPDATE[k]], n, op[2])
+            _put(c[UPDATE[k]], n, val_with_sig(op[2]))
     elif k == "update_data":
         _put(c["data"], n, op[2])
     elif k == "scale_parameter":
@@ -216,13 +237,20 @@ def _apply1(c, op):
         _drop(c, "vars", n)
         _strip(c, n)
         c["pars"].append([n, val])
-    elif k == "update_derived":
-        d = _get(c["derived"], n)
-        _put(c["derived"], n, {"args": d["args"] if op[3] is None else op[3], "e": d["e"] if op[2] is None else op[2]})
-    elif k == "update_reaction":
-        d = _get(c["rxns"], n)
-        _put(c["rxns"], n, {"args": d["args"] if op[3] is None else op[3], "e": d["e"] if op[2] is None else op[2],
-                            "st": d["st"] if op[4] is None else op[4]})
+    elif k in ("update_derived", "update_reaction"):
+        # a new function object replaces the old one (with its own signature); new args / stoichiometry replace
+        # the old ones; whatever is not given stays
+        kind = "derived" if k == "update_derived" else "rxns"
+        d = dict(_get(c[kind], n))
+        if op[2] is not None:
+            e, sig = bare_parts(op[2])
+            d["e"] = e
+            d["sig"] = sig if sig is not None else default_sig(e, len(op[3]) if op[3] is not None else 0)
+        if op[3] is not None:
+            d["args"] = op[3]
+        if k == "update_reaction" and op[4] is not None:
+            d["st"] = op[4]
+        _put(c[kind], n, d)
     elif k == "update_surrogate":
         d = dict(_get(c["surs"], n) if op[2] is None else op[2])
         if op[3] is not None:
@@ -242,6 +270,7 @@ def expected_content(before, op):
     cannot be evaluated (incomplete model)."""
     import copy
 
+    op = effective(op)
     c = copy.deepcopy(before)
     try:
         if op[0] == "scale_parameters":
